@@ -321,6 +321,12 @@ def _d_body(di, pos, ins):
         got = cells.parse_grid(kp.dumps(doc, encoding=e, spine_types=heads))
         exp = D2.expected(enc)
         check(got == exp, f'{enc} export of {text!r}: {got} expected {exp}')
+    # one options object used for a one-spine score first and for this document afterwards: still the whole grid
+    from kernpy.core.exporter import Exporter, ExportOptions
+    o = ExportOptions(spine_types=list(heads) + ['**kern'])
+    Exporter().export_string(kp.loads('**kern\n4c\n*-\n')[0], o)
+    got = cells.parse_grid(Exporter().export_string(doc, o))
+    check(got == D2.expected('kern'), f'an ExportOptions object first used on a one-spine score then exports {got}, expected {D2.expected("kern")}')
     return True
 
 
